@@ -5,10 +5,10 @@ patch=$1; shift
 wt=${SCRATCH_WT:-/tmp/wt/scratch}
 if [ ! -d "$wt" ]; then git -C /repo worktree add -q --detach "$wt" HEAD; fi
 git -C "$wt" checkout -q --detach $(git -C /repo rev-parse HEAD) 2>/dev/null
-git -C "$wt" checkout -q -- . 
+git -C "$wt" checkout -q -- . && git -C "$wt" clean -fdq 
 if ! git -C "$wt" apply "$patch"; then echo "PATCH-APPLY-FAILED $patch"; exit 3; fi
 export VERIF_OUT_DIR=/tmp/verif_scratch_out
 for pid in "$@"; do
   /venv/bin/python /verif/check.py "$pid" --root "$wt" 2>&1 | grep -E "^(VIOLATION|ANALYSIS-ERROR|KNOWN|C[0-9]+ |  rule)" | cut -c1-260
 done
-git -C "$wt" checkout -q -- .
+git -C "$wt" checkout -q -- . && git -C "$wt" clean -fdq
